@@ -751,6 +751,7 @@ type crashStats struct {
 	RealKills     int            `json:"real_kills_ok"`
 	Outcomes      map[string]int `json:"outcomes"`
 	Where         map[string]int `json:"where"`
+	Samples       []string       `json:"samples,omitempty"`
 	Viols         []*violation   `json:"viols,omitempty"`
 	HarnessErrors []string       `json:"harness_errors,omitempty"`
 }
@@ -1123,6 +1124,9 @@ func crashRun(c cfg, hist []string, only *cutRef) (st crashStats) {
 		}
 		st.Outcomes["ok"]++
 		crashSeen[sk] = "ok"
+		if len(st.Samples) < 2 && (cut.N+cut.Torn)%7 == 3 {
+			st.Samples = append(st.Samples, fmt.Sprintf("cfg=%s desc=%v history=%v crash at effect %d/%d torn=%d (%s): recovered %v, after continuation %v -> ok", c.Name, c.Desc, hist, cut.N, len(log), cut.Torn, where, out.D1, out.D3))
+		}
 		return false
 	})
 	if err != nil {
@@ -1327,6 +1331,11 @@ func (x *explorer) crashJob(c cfg, hist []string) {
 		}
 		for k, n := range cs.Where {
 			x.crash.Where[k] += n
+		}
+		for _, sm := range cs.Samples {
+			if len(x.crash.Samples) < 5 {
+				x.crash.Samples = append(x.crash.Samples, sm)
+			}
 		}
 		cc := c
 		if i == 1 {
@@ -1711,7 +1720,6 @@ func main() {
 	}
 	x.pool.Close()
 	// crash violations: confirm each (new key) twice in this process, then report
-	crashSamples := &ev.Samples{N: 3}
 	var pkeys []string
 	for k := range pending {
 		pkeys = append(pkeys, k)
@@ -1726,13 +1734,13 @@ func main() {
 		r.Report(p.v.Key, fmt.Sprintf("[cfg %s, key order desc=%v] %s", p.c.Name, p.c.Desc, p.v.What),
 			map[string]interface{}{"cfg": p.c, "events": p.hist, "cut": p.v.Cut, "effect_log": p.v.Log})
 	}
-	distinct := 0
-	for _, n := range x.crash.Outcomes {
-		if n > 0 {
-			distinct++
+	distinct := len(x.crash.Where) // distinct (event kind, effect position) classes with a crash point
+	outcomeClasses := 0
+	for k, n := range x.crash.Outcomes {
+		if n > 0 && !strings.Contains(k, "(same directory") {
+			outcomeClasses++
 		}
 	}
-	crashSamples.Add(map[string]interface{}{"note": "each crash case = (configuration, history, effect index inside the last event, torn length)"})
 	cov := map[string]interface{}{
 		"states":                               states,
 		"transitions":                          trans,
@@ -1765,10 +1773,12 @@ func main() {
 			"outcomes": x.crash.Outcomes,
 			"crash_points_per_event_kind_and_position": x.crash.Where,
 			"distinct_nontrivial":                      distinct,
-			"rule": "a crash point is non-trivial when a fresh process reopened the materialised directory; distinct_nontrivial counts distinct outcome classes " +
-				"(ok / recovery died / value never written / synced value lost / post-recovery divergence / …); crash points are enumerated inside the last event of every " +
+			"distinct_outcome_classes":                 outcomeClasses,
+			"rule": "a crash case is (configuration, history, effect index inside the last event, torn length); distinct_nontrivial counts the distinct classes (kind of the interrupted event, " +
+				"file operation at the crash point: create/write/torn write/sync/remove of data file, index snapshot, index log) at which a directory was materialised and judged; " +
+				"outcome classes: ok / first open died / value never written / synced value lost / continuation fails; crash points are enumerated inside the last event of every " +
 				"history that discovered a new state and touched the disk (earlier events' crash points belong to the shorter histories), for both key orders of the sync/defrag loops",
-			"samples": crashSamples.L,
+			"samples": x.crash.Samples,
 		},
 		"rule": "state = shortest history reaching it; each transition is a full replay of history+event on a fresh qdb.DB in a fresh directory (worker process), compared with the map model " +
 			"after every event (Count after every event), followed by an audit of the reached state (Get all, BrowseAll, close+reopen, Get all, BrowseAll); " +
